@@ -107,6 +107,9 @@ def run(ctx):
         RC.check_remove_node(ctx, res, "Hypergraph")
     with res.guard("RC.check_record_deletion_joint(ctx, res, Hypergraph)"):
         RC.check_record_deletion_joint(ctx, res, "Hypergraph")
+    res.rules["Q-ISO"] = "isolated_nodes / is_isolated decide isolation from the neighbour set (directly or by delegation), never from incidence lists or degrees"
+    with res.guard("RC.check_isolation(ctx, res, Hypergraph)"):
+        RC.check_isolation(ctx, res, "Hypergraph")
 
     # ---- degree = len(filtered incident list of the same node)
     with res.guard("degree = len(filtered incident list of the same node)"):
